@@ -574,6 +574,102 @@ fn judge(sc: &Scenario, engine: Engine, out: &RunOut, t: &mut Tally) -> Vec<Find
             }
         }
     }
+    // (2f) mixed read/write APIs on the same ports over time: what the component wrote
+    // this hook (payload of d; mask of d only for full read + masked write) is exactly
+    // what the port, a comb consumer and a register consumer show
+    if sc.kind == "mix"
+        && let (Some(di), Some(si), Some(qi), Some(yi), Some(ri)) =
+            (idx(&sc.inputs, "d"), idx(&sc.inputs, "sel"), idx(&sc.observe, "q"), idx(&sc.observe, "y"), idx(&sc.observe, "r"))
+    {
+        let mut prev: Option<TVal> = None;
+        for c in 0..out.post.len() {
+            let d = &out.pre[c][di];
+            let s = out.pre[c][si].payload[0];
+            let (wmode, rmode) = (s & 3, (s >> 2) & 3);
+            let w = d.width;
+            let full_read = rmode == 0 || rmode == 3;
+            let api = match wmode {
+                0 => "write_masked_value",
+                2 if w <= 64 => "write_u64",
+                1 | 2 => "write_words",
+                _ => "write_known_value",
+            };
+            let exp = TVal {
+                width: w,
+                payload: d.payload.clone(),
+                xz: if full_read && wmode == 0 { d.xz.clone() } else { vec![0; d.xz.len()] },
+            };
+            t.add("mix_cycles_compared", 1);
+            t.add(&format!("mix_{api}"), 1);
+            t.add(
+                match rmode {
+                    2 if w <= 64 => "mix_read_u64",
+                    1 | 2 => "mix_read_words",
+                    _ => "mix_read_full",
+                },
+                1,
+            );
+            if exp.has_xz() {
+                t.add("mix_masked_writes", 1);
+            }
+            if !full_read && d.has_xz() {
+                t.add("mix_fast_read_of_xz_input", 1);
+            }
+            let prev_masked = prev.as_ref().is_some_and(|p| p.has_xz());
+            if prev_masked && !exp.has_xz() {
+                t.add(
+                    match api {
+                        "write_u64" => "scalar_write_after_masked_write",
+                        "write_words" => "words_write_after_masked_write",
+                        _ => "known_value_write_after_masked_write",
+                    },
+                    1,
+                );
+            }
+            let q = &out.post[c][qi];
+            let y = &out.post[c][yi];
+            let r = &out.post[c][ri];
+            let mut bad: Option<(&str, &TVal, &TVal)> = None;
+            if *q != exp {
+                bad = Some(("q", q, &exp));
+            } else if *y != exp {
+                bad = Some(("y (assign y = q)", y, &exp));
+            } else if let Some(p) = &prev {
+                // The register consumer is judged on fully known values only: how an RTL
+                // flip-flop copies a partially-X/Z value is the engines' business (C02/C03).
+                if p.has_xz() {
+                    t.add("mix_register_checks_skipped_xz", 1);
+                } else {
+                    t.add("mix_register_checks", 1);
+                    if r != p {
+                        bad = Some(("r (always_ff r = q, previous hook's value)", r, p));
+                    }
+                }
+            }
+            if let Some((what, got, want)) = bad {
+                let how = if got.payload != want.payload {
+                    "payload"
+                } else if prev_masked && !want.has_xz() {
+                    "stale_mask"
+                } else {
+                    "xz_mask"
+                };
+                f.push(Finding {
+                    class: format!("value:mix:{api}:{how}"),
+                    detail: format!(
+                        "hook {c}: component read d = {} ({}) and drove q with {api}: expected {} but `{what}` = {}{}",
+                        d.hex(),
+                        if full_read { "ctx.read" } else { "fast read" },
+                        want.hex(),
+                        got.hex(),
+                        if prev_masked { " (the previous hook drove X/Z on the same port)" } else { "" }
+                    ),
+                });
+                break;
+            }
+            prev = Some(exp);
+        }
+    }
     // (2e) on_init outputs: visible from the first settle, value == parameter
     for ((n, want), got) in sc.init_expect.iter().zip(out.init_vals.iter()) {
         t.add("init_values_checked", 1);
@@ -1157,12 +1253,72 @@ struct CaseOut {
     inconclusive: Vec<String>,
 }
 
+/// `c35_mix`: the read API for `d` and the write API for `q` change from hook to hook
+/// on the SAME ports (masked Value / write_words / write_u64 / fully known Value;
+/// read / read_words / read_u64).  Three sequences are forced in every case: a masked
+/// write followed by a scalar (or words, when wide) write, by a words write, and by a
+/// known-Value write.
+fn gen_mix(rng: &mut Rng, case: u64, ncycles: usize) -> Scenario {
+    let w = if case % 2 == 0 {
+        if rng.bool() { *rng.pick(&[1usize, 2, 7, 8, 16, 31, 32, 33, 63, 64]) } else { rng.range(1, 64) as usize }
+    } else {
+        pick_width(rng, 300)
+    };
+    let text = format!(
+        "#[test(c35x)]\nmodule C35X (\n    clk: input clock,\n    d: input logic<{w}>,\n    sel: input logic<4>,\n    q: output logic<{w}>,\n    y: output logic<{w}>,\n    r: output logic<{w}>,\n) {{\n    inst m: $comp::c35_mix (clk, d, sel, q);\n    assign y = q;\n    always_ff (clk) {{\n        r = q;\n    }}\n}}\n"
+    );
+    let masked = |rng: &mut Rng| -> TVal {
+        let mut v = rand4(rng, w);
+        if !v.has_xz() {
+            v.xz[0] |= 1;
+        }
+        v
+    };
+    let ncycles = ncycles.max(10);
+    let mut ds: Vec<TVal> = (0..ncycles).map(|_| if rng.chance(3, 4) { rand4(rng, w) } else { rand2(rng, w) }).collect();
+    let mut sels: Vec<u64> = (0..ncycles).map(|_| rng.below(16)).collect();
+    // forced sequences: (masked write, then write mode m) at cycles (k, k+1)
+    for (k, m) in [(1usize, 2u64), (4, 1), (7, 3)] {
+        ds[k] = masked(rng);
+        sels[k] = if rng.bool() { 0 } else { 3 << 2 }; // full read, masked write
+        ds[k + 1] = if rng.bool() { rand2(rng, w) } else { rand4(rng, w) };
+        sels[k + 1] = (rng.below(4) << 2) | m;
+    }
+    let cycles = ds
+        .into_iter()
+        .zip(sels)
+        .map(|(d, s)| Cycle {
+            sets: vec![("d".into(), d), ("sel".into(), tval(4, vec![s], vec![]))],
+            reset: false,
+        })
+        .collect();
+    Scenario {
+        kind: "mix".into(),
+        template: "mixed_read_write_apis".into(),
+        flavour: "c35_mix".into(),
+        text,
+        top: "C35X".into(),
+        width: w,
+        clock: "clk".into(),
+        reset: None,
+        cycles,
+        inputs: vec!["d".into(), "sel".into()],
+        observe: vec!["q".into(), "y".into(), "r".into()],
+        pairs: vec![],
+        echo: None,
+        rec: None,
+        calls: vec![],
+        tb_expect: vec![],
+        init_expect: vec![],
+    }
+}
+
 fn engines_for(sc: &Scenario, rng: &mut Rng, all_engines: bool) -> Vec<Engine> {
     let all = Engine::all();
     match sc.kind.as_str() {
         "timing" => all,
         "value" if all_engines => all,
-        "value" => {
+        "value" | "mix" => {
             // both state modes, both engines; ff-opt toggle at random
             let mut v = vec![];
             for four_state in [false, true] {
@@ -1207,6 +1363,8 @@ fn path_class(sc: &Scenario) -> &'static str {
         "fast_path" // NULL mask pointers (read_words/write_words/read_u64/write_u64)
     } else if sc.flavour.contains("c35_echo_rst") {
         "value_path+reset"
+    } else if sc.flavour.contains("c35_mix") {
+        "mixed_api"
     } else if sc.flavour.contains("c35_probe") {
         "methods"
     } else {
@@ -1320,6 +1478,11 @@ fn run_case(sc: &Scenario, engines: &[Engine], transports: &[Transport], libs: &
         if sc.kind == "value" && sc.cycles.iter().any(|c| c.sets.iter().any(|(_, v)| v.has_xz())) {
             co.tally.add("value_cases_with_nonzero_mask", 1);
         }
+        for k in ["scalar_write_after_masked_write", "words_write_after_masked_write", "known_value_write_after_masked_write"] {
+            if co.tally.counts.get(k).copied().unwrap_or(0) > 0 {
+                co.tally.add(&format!("{k}_cases"), 1);
+            }
+        }
         co.nontrivial = Some(hash_str(&format!("{}{:?}{:?}", sc.text, sc.cycles, sc.calls)));
         co.sample = Some(json!({
             "kind": sc.kind, "template": sc.template, "flavour": sc.flavour, "width": sc.width,
@@ -1410,13 +1573,15 @@ pub fn main(args: Args) {
     let run = Arc::new(Run::new(
         args.clone(),
         "exploration",
-        "four generated case families, each run on every engine configuration (interpreter/JIT x 2/4-state x ff-opt on/off) \
+        "five generated case families, each run on every engine configuration (interpreter/JIT x 2/4-state x ff-opt on/off) \
          and every available component transport: (timing) 12 design templates placing an echo component next to / before / after / \
          between RTL registers, random width 1..300 and random two-state stimulus; (value) echo + recorder components on a port of \
          width 1..300 driven with random payloads and random X/Z masks through three connection shapes; (method) a probe component \
          with a random literal parameter (1..300 bits) and string parameter, and random method calls through Simulator::call_component_method; \
          (tb) the same probe driven from a generated `initial` block through run_testbench (arguments marshalled from Veryl values, returns \
-         assigned to Veryl variables). A case is non-trivial when at \
+         assigned to Veryl variables); \
+         (mix) a component that changes, from clock hook to clock hook and on the same ports, which read API samples its input and which write API \
+         drives its output (masked Value / write_words / write_u64 / fully known Value), with masked-then-scalar/words/known sequences forced in every case. A case is non-trivial when at \
          least one run of it was accepted by the analyzer, built and stepped; distinct = distinct (design text, stimulus, calls)",
     ));
     run.assume("the RTL register `always_ff { q = d; }` of the same design under the same engine is the timing reference (C01/C02 own its correctness)");
@@ -1514,12 +1679,14 @@ pub fn main(args: Args) {
     let cyc_value = args.budget("value_cycles", 8, 10) as usize;
     let n_calls = args.budget("calls", 12, 16) as usize;
     let all_engines_value = args.budget("value_all_engines", 0, 0) != 0;
-    let total = n_timing + n_value + n_method + n_tb;
+    let n_mix = args.budget("mix", 60, 180);
+    let cyc_mix = args.budget("mix_cycles", 12, 16) as usize;
+    let total = n_timing + n_value + n_method + n_tb + n_mix;
     let seed = args.seed;
     let libs = Arc::new(rep.libs.clone());
     let transports = Arc::new(transports);
 
-    let sample_at = [0, n_timing, n_timing + n_value, n_timing + n_value + n_method];
+    let sample_at = [0, n_timing, n_timing + n_value, n_timing + n_value + n_method, n_timing + n_value + n_method + n_tb];
     let run2 = run.clone();
     let libs2 = libs.clone();
     let tr2 = transports.clone();
@@ -1540,10 +1707,14 @@ pub fn main(args: Args) {
                 let k = i - n_timing - n_value;
                 let mut rng = Rng::for_case(seed, "C35/method", k);
                 (gen_method(&mut rng, k, n_calls), rng)
-            } else {
+            } else if i < n_timing + n_value + n_method + n_tb {
                 let k = i - n_timing - n_value - n_method;
                 let mut rng = Rng::for_case(seed, "C35/tb", k);
                 (gen_tb(&mut rng, k, n_calls), rng)
+            } else {
+                let k = i - n_timing - n_value - n_method - n_tb;
+                let mut rng = Rng::for_case(seed, "C35/mix", k);
+                (gen_mix(&mut rng, k, cyc_mix), rng)
             };
             let engines = engines_for(&sc, &mut rng, all_engines_value);
             run_case(&sc, &engines, &tr2, &libs2)
@@ -1603,6 +1774,14 @@ pub fn main(args: Args) {
         ("method_calls_checked".into(), f_calls),
         ("param_checks".into(), f_params),
         ("tb_values_checked".into(), f_tb),
+        ("mix_cycles_compared".into(), (n_mix as i64) * (cyc_mix as i64) * 4 * nt / 3),
+        ("mix_masked_writes".into(), (n_mix as i64) * 2 * nt),
+        ("scalar_write_after_masked_write".into(), (n_mix as i64) * nt / 3),
+        ("scalar_write_after_masked_write_cases".into(), (n_mix as i64) / 6),
+        ("words_write_after_masked_write_cases".into(), (n_mix as i64) / 3),
+        ("known_value_write_after_masked_write_cases".into(), (n_mix as i64) / 3),
+        ("mix_read_u64".into(), (n_mix as i64) * nt / 3),
+        ("mix_fast_read_of_xz_input".into(), (n_mix as i64) * nt / 3),
         ("init_values_checked".into(), f_params / 2),
         ("timing_templates_with_activity".into(), if n_timing >= 12 { 12 } else { 1 }),
         ("widths".into(), f_widths),
@@ -1624,6 +1803,9 @@ pub fn main(args: Args) {
     }
     if n_method == 0 {
         floors.retain(|(k, _)| k != "method_calls_checked" && k != "param_checks" && k != "init_values_checked");
+    }
+    if n_mix == 0 {
+        floors.retain(|(k, _)| !k.starts_with("mix_") && !k.contains("_after_masked_write"));
     }
     if n_tb == 0 {
         floors.retain(|(k, _)| k != "tb_values_checked");
